@@ -882,3 +882,107 @@ func extIndex(fr *frame, a []value) value {
 	}
 	return ival{res, types.Int}
 }
+
+// ---- strconv summaries --------------------------------------------------------------------------------------
+// strconv.ParseInt / ParseUint on a symbolic string fork per character in the real implementation (4^n paths for
+// n hex digits). For base 16 (<= 16 digits) and base 10 (<= 18 digits), bitSize 64, they are summarised without
+// forking on digits: one fork on the sign character class, one on "all characters are digits", one on range.
+// The summary is validated against the real functions by the engine self-test. Concrete strings run the real code.
+
+func (i *interpreter) numError(fn string, s value, errGlobal string) value {
+	pkg := i.prog.ImportedPackage("strconv")
+	g := pkg.Var(errGlobal)
+	errV := *i.global(g)
+	t := i.pkgType("strconv", "NumError")
+	var cell value = structure{fn, s, errV}
+	return iface{types.NewPointer(t), &cell}
+}
+
+func extParseInt(signedFn bool) externalFn {
+	return func(fr *frame, a []value) value {
+		i := fr.i
+		c := i.ctx
+		if _, ok := a[0].(string); ok {
+			return fallThrough{}
+		}
+		bv, ok1 := a[1].(ival)
+		sz, ok2 := a[2].(ival)
+		if !ok1 || !ok2 || !bv.t.IsConst() || !sz.t.IsConst() || sz.i64() != 64 {
+			return fallThrough{}
+		}
+		base := bv.i64()
+		bs := i.strBytes(a[0])
+		maxDigits := 16
+		if base == 10 {
+			maxDigits = 18
+		} else if base != 16 {
+			return fallThrough{}
+		}
+		fnName := "ParseUint"
+		if signedFn {
+			fnName = "ParseInt"
+		}
+		synErr := func() value {
+			return tuple{i.mkInt(map[bool]types.BasicKind{true: types.Int64, false: types.Uint64}[signedFn], 0), i.numError(fnName, a[0], "ErrSyntax")}
+		}
+		if len(bs) == 0 {
+			return synErr()
+		}
+		neg := false
+		digits := bs
+		if signedFn {
+			b0 := bs[0].(ival).t
+			if i.ex.Branch(c.Cmp(OpEq, b0, c.BV('-', 8))) {
+				neg = true
+				digits = bs[1:]
+			} else if i.ex.Branch(c.Cmp(OpEq, b0, c.BV('+', 8))) {
+				digits = bs[1:]
+			}
+		}
+		if len(digits) == 0 {
+			return synErr()
+		}
+		if len(digits) > maxDigits {
+			return fallThrough{} // would need overflow reasoning: run the real code (may fork heavily)
+		}
+		valid := c.True()
+		val := c.BV(0, 64)
+		for _, d := range digits {
+			ch := d.(ival).t
+			isDigit := c.And(c.Cmp(OpUle, c.BV('0', 8), ch), c.Cmp(OpUle, ch, c.BV('9', 8)))
+			dv := c.Bin(OpSub, ch, c.BV('0', 8))
+			ok := isDigit
+			if base == 16 {
+				lower := c.Bin(OpOr, ch, c.BV(0x20, 8))
+				isHex := c.And(c.Cmp(OpUle, c.BV('a', 8), lower), c.Cmp(OpUle, lower, c.BV('f', 8)))
+				dv = c.Ite(isDigit, dv, c.Bin(OpSub, lower, c.BV('a'-10, 8)))
+				ok = c.Or(isDigit, isHex)
+			}
+			valid = c.And(valid, ok)
+			val = c.Bin(OpAdd, c.Bin(OpMul, val, c.BV(uint64(base), 64)), c.ZExt(dv, 64))
+		}
+		if !i.ex.Branch(valid) {
+			return synErr()
+		}
+		if !signedFn {
+			return tuple{ival{val, types.Uint64}, iface{}}
+		}
+		// range: magnitude must be < 2^63 (or == 2^63 for negative)
+		cutoff := c.BV(1<<63, 64)
+		if !neg {
+			if i.ex.Branch(c.Cmp(OpUle, cutoff, val)) {
+				return tuple{i.mkInt(types.Int64, 1<<63-1), i.numError(fnName, a[0], "ErrRange")}
+			}
+			return tuple{ival{val, types.Int64}, iface{}}
+		}
+		if i.ex.Branch(c.Cmp(OpUlt, cutoff, val)) {
+			return tuple{i.mkInt(types.Int64, -1<<63), i.numError(fnName, a[0], "ErrRange")}
+		}
+		return tuple{ival{c.Un(OpNeg, val), types.Int64}, iface{}}
+	}
+}
+
+func init() {
+	externals["strconv.ParseInt"] = extParseInt(true)
+	externals["strconv.ParseUint"] = extParseInt(false)
+}
